@@ -342,6 +342,21 @@ func check(t ev.TB, test string, pl payload, feat map[string]int) {
 			_ = vals
 		}
 		if d := diff(base, o); d != "" {
+			// is the program in the property's domain at all? The filter above
+			// tried four fixed map orders; before reporting, the reference
+			// enumerates every order of every map traversal, and the top-level
+			// program is run 16 more times: a program that does not agree with
+			// itself depends on Go's map iteration order.
+			if refx.OrderDependent(p, inputs, ref.DefaultConfig()) {
+				ev.Discard("excluded:capacity-or-map-order-dependent (exhaustive enumeration after a mismatch)")
+				return
+			}
+			for i := 0; i < 16; i++ {
+				if diff(base, run(v0(p, names), inputs, nil)) != "" {
+					ev.Discard("excluded:map-order-dependent (the top-level program gives different results from run to run)")
+					return
+				}
+			}
 			pl.Source = lang.Render(v0(p, names).Main)
 			ev.Fail(t, test, pl, "%s differs from the top-level program: %s\n--- top-level source ---\n%s\n--- variant source ---\n%s",
 				v.name, d, clip(pl.Source), clip(lang.Render(v.prog.Main)))
